@@ -12,6 +12,12 @@ Local Open Scope R_scope.
 (* camera_ok position target up (P_viewing.v): the domain of world_to_view — camera position and target differ,
    and up is not parallel to the viewing direction:  target <> position /\ (target - position) x up <> 0 *)
 
+(* MAGNITUDE DOMAIN (binary64 only; the theorems below are over the reals and have no such restriction): the code normalises
+   target - position and look x up with vg.normalize, which squares the components.  For |target - position| or |up| outside
+   about 1e-154 .. 1e154 the square overflows / underflows and world_to_view returns NaN rows, all-zero rows or rows that are
+   not of unit length, without raising (e.g. up = (0,1e200,0)).  The property's quantifier does not speak of magnitudes; the
+   check samples 2^-40 .. 2^40 and records, without judging, what happens at 2^+-520..700 (tools/props/C12.py ASSUMPTIONS). *)
+
 (* ---- world_to_view ---------------------------------------------------------------------------------- *)
 (* on its domain the function returns a NaN-free matrix, the one the theorems below speak about *)
 Theorem C12_w2v_defined : forall position target up inv, camera_ok position target up ->
@@ -117,6 +123,21 @@ Theorem C12_canvas_is_product_of_stage_functions : forall w h position target zo
     m = if inv then mmul ROps (mmul ROps a b) c else mmul ROps (mmul ROps c b) a.
 Proof. exact canvas_is_product_of_function_results. Qed.
 
+(* ... and the other two outcomes, so that the function-level model of the canvas is determined by its stages:
+   it raises (always ZeroDivisionError) iff zoom = 0 (the division width/zoom) or the projection or the viewport stage raises
+   ZeroDivisionError; it returns the NaN marker iff nothing raises and world_to_view returns the NaN marker *)
+Theorem C12_canvas_fails_iff_a_stage_fails : forall w h position target zoom inv,
+  (forall e, world_to_canvas ROps w h position target zoom inv = Raise e <->
+     e = ZeroDivisionError /\
+     (zoom = 0 \/ view_to_orthographic_projection ROps (w / zoom) (h / zoom) (1 / 10) 2000 inv = Raise ZeroDivisionError
+               \/ viewport_transform ROps w h 0 0 inv = Raise ZeroDivisionError)) /\
+  (world_to_canvas ROps w h position target zoom inv = Ok None <->
+     zoom <> 0 /\ (exists b, view_to_orthographic_projection ROps (w / zoom) (h / zoom) (1 / 10) 2000 inv = Ok b) /\
+     (exists c, viewport_transform ROps w h 0 0 inv = Ok c) /\ world_to_view ROps position target (V3 0 1 0) inv = None).
+Proof.
+  intros w h p t zoom inv. exact (conj (fun e => canvas_raises_iff w h p t zoom inv e) (canvas_nan_iff w h p t zoom inv)).
+Qed.
+
 (* on points: camera, then projection, then viewport *)
 Theorem C12_canvas_applies_stages_in_order : forall w h position target zoom x,
   mapply_pt ROps (canvas_mat ROps w h position target zoom false) x =
@@ -163,5 +184,5 @@ Definition C12_all := (C12_w2v_defined, C12_w2v_isometry, C12_w2v_position_to_or
   C12_ortho_defined, C12_ortho_maps_box_to_cube, C12_ortho_corners_near_to_minus_one, C12_ortho_inverse_is_inverse,
   C12_viewport_defined, C12_viewport_maps_corners, C12_viewport_interpolates, C12_viewport_z_to_unit,
   C12_viewport_inverse_is_inverse,
-  C12_canvas_defined, C12_canvas_is_product_of_stage_functions, C12_canvas_is_three_stages, C12_canvas_applies_stages_in_order, C12_canvas_inverse_is_inverse).
+  C12_canvas_defined, C12_canvas_is_product_of_stage_functions, C12_canvas_fails_iff_a_stage_fails, C12_canvas_is_three_stages, C12_canvas_applies_stages_in_order, C12_canvas_inverse_is_inverse).
 Print Assumptions C12_all.
